@@ -89,7 +89,7 @@ class Tamper(c05.History):
             chk.sighash_log = log
             r = RS.result_of(RS.verify_script, ti["script"], bytes(u.script), ti["witness"], self.ref_flags, chk)
             out.append(r == "OK")
-            digests.append(frozenset(d for _, _, _, d in log))
+            digests.append(frozenset(e[3] for e in log))
         return out, digests
 
     def fresh_verdicts(self):
@@ -226,6 +226,13 @@ class Tamper(c05.History):
             live = self.live_verdicts()
             ref, dig = self.ref_verdicts()
             rec.ev("Tx.is_solution_ok", len(live))
+            if len(live) > 1 and all(u is not None for u in self.tx.unspents) and len(self.tx.unspents) == len(self.tx.txs_in):
+                order = list(range(len(live)))
+                self.rng.shuffle(order)
+                shared = self.shared_checker_verdicts(self.ref_flags if self.use_flags is None else self.use_flags, order)
+                # shared_checker_verdicts returns verdicts indexed by input
+                if shared != live:
+                    rec.violation("shared_checker_instance_differs." + cls, self.case({"mutations": list(self.mlog), "order": order}), shared, live)
             case = self.case({"mutations": list(self.mlog), "hash_type_name": ht, "flags": "standard" if self.use_flags is not None else "default"})
             sv_kinds = sorted({k.split(":")[-1] for k in self.kinds})
             rec.case((self.netcode, tuple(sorted(self.kinds)), ht, cls, accumulate and len(self.mlog)), nontrivial=True)
